@@ -8,6 +8,8 @@ field of characteristic zero, in particular for all real coordinates.
 import TrimeshVerif.Proofs.Moments
 import TrimeshVerif.Generated.C03Trace
 import TrimeshVerif.Generated.C03TraceRat
+import TrimeshVerif.Proofs.FrameLaw
+import TrimeshVerif.Generated.C03FrameRat
 import Mathlib.Algebra.Order.Field.Rat
 namespace TV.C03
 open TV.Moments TV.Generated.C03
@@ -250,6 +252,55 @@ theorem C03_inertia_override_gap (S : Fin 10 → K) (rho k2 k3 : K) :
   unfold codeI00 exactI00; ring
 
 
+
+/-! ### frame law (`moment_inertia_frame` → `inertia.transform_inertia`, traced: Generated/C03Frame.lean) -/
+
+section frame
+open TV.Mat3 TV.FrameLaw
+
+/-- **frame law**: for every frame with orthonormal axes `R` and origin `p`, what `moment_inertia_frame`
+    computes (the traced code, fed with the code's own tensor at the centre of mass, the centre of mass
+    `first moments / volume` and the mass `ρ V`) is the exact inertia tensor of the solid about `p` in the
+    coordinates of the frame: `ρ (tr Q' · 1 − Q')` with `Q' = Rᵀ Q(p) R` the second moments in the frame.
+    All nine entries; parallel-axis shift and change of axes together -/
+theorem C03_frame_law (S : Fin 10 → K) (rho : K) (R : M3 K) (p1 p2 p3 : K) (hV : S 0 ≠ 0)
+    (h1 : R.transpose * R = 1) (h2 : R * R.transpose = 1) :
+    frameM R p1 p2 p3 (S 1 / S 0) (S 2 / S 0) (S 3 / S 0) (rho * S 0)
+        (codeInertia S rho (S 1 / S 0) (S 2 / S 0) (S 3 / S 0))
+      = exactFrame S rho R p1 p2 p3 := by
+  rw [frameM_eq _ _ _ _ _ _ _ _ _ rfl rfl rfl, parallel_axis S rho p1 p2 p3 hV]
+  exact rotate_inertia rho R _ h1 h2
+
+/-- the tensor `codeInertia` used above has the entries of `C03_inertia_at_com` -/
+theorem C03_codeInertia_entries (S : Fin 10 → K) (rho k1 k2 k3 : K) :
+    (codeInertia S rho k1 k2 k3).m00 = codeI00 S rho k2 k3 ∧
+    (codeInertia S rho k1 k2 k3).m01 = codeI01 S rho k1 k2 := ⟨rfl, rfl⟩
+
+/-- the parallel-axis step alone (no rotation): the tensor about any point `p` in world axes -/
+theorem C03_parallel_axis (S : Fin 10 → K) (rho p1 p2 p3 : K) (hV : S 0 ≠ 0) :
+    frameM (1 : M3 K) p1 p2 p3 (S 1 / S 0) (S 2 / S 0) (S 3 / S 0) (rho * S 0)
+        (codeInertia S rho (S 1 / S 0) (S 2 / S 0) (S 3 / S 0))
+      = inertiaOf rho (secondAbout S p1 p2 p3) := by
+  have h := C03_frame_law S rho (1 : M3 K) p1 p2 p3 hV (by ext <;> simp [M3.transpose, show (1 : M3 K) = M3.one from rfl,
+    M3.one, show ∀ a b : M3 K, a * b = M3.mul a b from fun _ _ => rfl, M3.mul])
+    (by ext <;> simp [M3.transpose, show (1 : M3 K) = M3.one from rfl, M3.one,
+      show ∀ a b : M3 K, a * b = M3.mul a b from fun _ _ => rfl, M3.mul])
+  rw [h]
+  unfold exactFrame
+  congr 1
+  ext <;> simp [M3.transpose, show (1 : M3 K) = M3.one from rfl, M3.one,
+    show ∀ a b : M3 K, a * b = M3.mul a b from fun _ _ => rfl, M3.mul]
+
+/-- non-vacuity: a quarter turn about z is orthonormal -/
+example : (Rz (0 : ℚ) 1).transpose * Rz 0 1 = 1 ∧ Rz (0 : ℚ) 1 * (Rz 0 1).transpose = 1 := by
+  constructor
+  · show M3.mul _ _ = M3.one
+    ext <;> norm_num [Rz, M3.transpose, M3.one, M3.mul]
+  · show M3.mul _ _ = M3.one
+    ext <;> norm_num [Rz, M3.transpose, M3.one, M3.mul]
+
+end frame
+
 /-! ### the polynomials the compiled driver evaluates are the traced ones at `K = ℚ` -/
 theorem C03_driver_uses_trace_0 (a1 a2 a3 b1 b2 b3 c1 c2 c3 : ℚ) :
     F0 a1 a2 a3 b1 b2 b3 c1 c2 c3 = TV.Generated.C03Rat.F0 a1 a2 a3 b1 b2 b3 c1 c2 c3 := by
@@ -281,5 +332,18 @@ theorem C03_driver_uses_trace_8 (a1 a2 a3 b1 b2 b3 c1 c2 c3 : ℚ) :
 theorem C03_driver_uses_trace_9 (a1 a2 a3 b1 b2 b3 c1 c2 c3 : ℚ) :
     F9 a1 a2 a3 b1 b2 b3 c1 c2 c3 = TV.Generated.C03Rat.F9 a1 a2 a3 b1 b2 b3 c1 c2 c3 := by
   unfold F9 TV.Generated.C03Rat.F9; rfl
+
+/-- the frame polynomials the compiled driver evaluates are the traced ones at `K = ℚ` -/
+theorem C03_driver_uses_frame_trace :
+    (@TV.Generated.C03Frame.frame00 ℚ _) = TV.Generated.C03FrameRat.frame00 ∧
+    (@TV.Generated.C03Frame.frame01 ℚ _) = TV.Generated.C03FrameRat.frame01 ∧
+    (@TV.Generated.C03Frame.frame02 ℚ _) = TV.Generated.C03FrameRat.frame02 ∧
+    (@TV.Generated.C03Frame.frame10 ℚ _) = TV.Generated.C03FrameRat.frame10 ∧
+    (@TV.Generated.C03Frame.frame11 ℚ _) = TV.Generated.C03FrameRat.frame11 ∧
+    (@TV.Generated.C03Frame.frame12 ℚ _) = TV.Generated.C03FrameRat.frame12 ∧
+    (@TV.Generated.C03Frame.frame20 ℚ _) = TV.Generated.C03FrameRat.frame20 ∧
+    (@TV.Generated.C03Frame.frame21 ℚ _) = TV.Generated.C03FrameRat.frame21 ∧
+    (@TV.Generated.C03Frame.frame22 ℚ _) = TV.Generated.C03FrameRat.frame22 := by
+  refine ⟨?_, ?_, ?_, ?_, ?_, ?_, ?_, ?_, ?_⟩ <;> rfl
 
 end TV.C03
